@@ -31,7 +31,7 @@ pub fn info() -> PropInfo {
         id: "C11",
         run,
         replay,
-        rule: "cases = (tag content 't'+s, XML/HTML mode, duplicate checking on/off, iterator from Attributes::new/html or from a start event read by the reader). Enumerated: every s up to length N over {space, tab, =, \", ', a, b, /}; generated: attribute lists (1-7 attributes, both quote kinds, arbitrary spacing, values with blanks/other quote/=/>) with injected faults (missing '=', missing value, unquoted value, unterminated quote, repeated key), also faults after faults. The reference model predicts every item (key bytes, value bytes, error variant and positions) and the iterator must then return None on three further calls. Non-trivial = at least two attributes of which at least one is faulty and at least one well-formed one comes after a faulty one.",
+        rule: "cases = (tag content 't'+s, XML/HTML mode, duplicate checking on/off, iterator from Attributes::new/html or from a start event read by the reader). Enumerated: every s up to length N over {space, tab, =, \", ', a, b, /}; generated: attribute lists (1-7 attributes, both quote kinds, arbitrary spacing, values with blanks/other quote/=/>) with injected faults (missing '=', missing value, unquoted value, unterminated quote, repeated key), also faults after faults. The reference model predicts every item (key bytes, value bytes, error variant and positions) and the iterator must then return None on three further calls. Non-trivial = at least two attributes of which at least one is faulty and at least one well-formed one comes after a faulty one. Keys / values up to 80 bytes and lists of 20..50 attributes occur; in a third of the generated cases the current setting is asserted again with with_checks(current) before chosen next() calls, which must not change anything.",
         assumptions: &["a '=' in key-start position (e.g. `t =x`) is an undocumented input class: only totality and termination are checked there (counted as excluded: ambiguous-eq-at-key-start)", "keys that take part in duplicate detection are the keys that were followed by '=' plus, in HTML mode, value-less keys"],
         level: "exploration",
         variants: &["full"],
